@@ -541,6 +541,7 @@ def run_property(mod, tier: str) -> int:
     write_evidence(prop, ev)
     for line in out_lines:
         print(line)
+    sys.stdout.flush()
     if violations:
         for f in violations:
             path = write_replay(prop, f)
